@@ -64,7 +64,7 @@ func raceCommits(first kv.Flusher, others ...kv.Flusher) []error {
 
 func (o famOp) coq() string {
 	switch o.K {
-	case "flush":
+	case "flush", "sweepflush":
 		return fmt.Sprintf("[Families.Flush %d %d]", o.N, o.C)
 	case "race":
 		return fmt.Sprintf("[Families.Flush %d %d; Families.Flush %d %d; Families.Flush %d %d]", o.N, o.C, o.N, o.C2, o.M, o.C3)
@@ -169,6 +169,38 @@ func runFamilies(out *vh.Out, root string, id int, ops []famOp, name string) {
 			flA.Release()
 			flB.Release()
 			flG.Release()
+		case "sweepflush":
+			fam := st.GetFamily(famName(o.N))
+			if fam == nil {
+				continue
+			}
+			// the table is built (pending output), then an obsolete-file sweep of the family lists the directory and is held
+			// between its two reads of the live files (pending outputs / files of the versions, in whichever order it takes
+			// them); the flush commits meanwhile; then the sweep goes on
+			fl := fam.NewFlusher()
+			if err := fl.Add(uint32(o.C), []byte{byte(o.C)}); err != nil {
+				failed = "flush add: " + err.Error()
+				break
+			}
+			var parked atomic.Int32
+			hold := make(chan struct{})
+			verifhook.Set(func(pt string) {
+				if (pt == "kv.delobs.afterPending" || pt == "kv.delobs.afterActive") && parked.Add(1) == 1 {
+					<-hold
+				}
+			})
+			swept := make(chan struct{})
+			go func() { kv.VerifDeleteObsolete(fam); close(swept) }()
+			for i := 0; i < 2000 && parked.Load() < 1; i++ {
+				time.Sleep(time.Millisecond)
+			}
+			if err := fl.Commit(); err != nil {
+				failed = "flush commit: " + err.Error()
+			}
+			fl.Release()
+			close(hold)
+			<-swept
+			verifhook.Set(nil)
 		case "reopen", "crash":
 			next := cur
 			if o.K == "crash" {
@@ -208,7 +240,7 @@ func runFamilies(out *vh.Out, root string, id int, ops []famOp, name string) {
 		out.Count("families-op:" + o.K)
 	}
 	idx := out.Case(map[string]interface{}{"kind": "families", "name": name, "ops": ops, "failed": failed},
-		kinds["create"] >= 2 && kinds["flush"]+kinds["race"] >= 2 && kinds["reopen"]+kinds["crash"] >= 1)
+		kinds["create"] >= 2 && kinds["flush"]+kinds["race"]+kinds["sweepflush"] >= 2 && kinds["reopen"]+kinds["crash"] >= 1)
 	out.Count("families-histories")
 	if failed != "" {
 		out.Violation(idx, "families", "an operation of a multi-family history failed: "+failed, nil)
@@ -225,7 +257,7 @@ func familiesCases(out *vh.Out, root string, r *vh.Rand, n int, id *int) {
 	*id++
 	// three commits at once: one of another family holds the manifest lock while two of the same family queue behind it
 	runFamilies(out, root, *id, []famOp{{K: "create", N: 1}, {K: "create", N: 2}, {K: "flush", N: 1, C: 10}, {K: "race", N: 1, M: 2, C: 11, C2: 12, C3: 13},
-		{K: "flush", N: 1, C: 14}, {K: "crash"}, {K: "race", N: 2, M: 1, C: 15, C2: 16, C3: 17}, {K: "reopen"}}, "racing commits of one family behind a commit of another")
+		{K: "flush", N: 1, C: 14}, {K: "crash"}, {K: "race", N: 2, M: 1, C: 15, C2: 16, C3: 17}, {K: "sweepflush", N: 1, C: 18}, {K: "reopen"}}, "racing commits of one family behind a commit of another; a flush committing inside an obsolete-file sweep")
 	*id++
 	for i := 0; i < n; i++ {
 		var ops []famOp
@@ -254,7 +286,11 @@ func familiesCases(out *vh.Out, root string, r *vh.Rand, n int, id *int) {
 				}
 				sort.Ints(ks)
 				next++
-				ops = append(ops, famOp{K: "flush", N: ks[r.Intn(len(ks))], C: next})
+				kind := "flush"
+				if r.Chance(25) {
+					kind = "sweepflush"
+				}
+				ops = append(ops, famOp{K: kind, N: ks[r.Intn(len(ks))], C: next})
 			case x < 85:
 				ops = append(ops, famOp{K: "reopen"})
 			default:
